@@ -271,6 +271,11 @@ protected:
       }
     });
 
+    detail::dynamic_check(
+      chosen_trampoline != nullptr,
+      "Could not find an empty slot for the callback. This sandbox supports "
+      "only a limited number of simultaneously registered callbacks.");
+
     return reinterpret_cast<T_PointerType>(chosen_trampoline);
   }
 
